@@ -187,12 +187,30 @@ theorem sharedDesc_clean {a b : Path} (ha : Clean a) (hb : Clean b) :
   · rfl
   · simp [joinP_of_not_mem (not_mem_of_sublist (lcs_suffix_left a b).sublist ha.2)]
 
-theorem descList_clean {a b : Path} (ha : Clean a) (hb : Clean b) : descList a b = lcs a b := by
-  unfold descList
+/-- the shared trailing part as `get_relative` uses it: the longest common suffix, cut so that
+a root is left to each name -/
+def desc (a b : List String) : List String :=
+  (lcs a b).drop ((lcs a b).length - (min a.length b.length - 1))
+
+theorem desc_suffix_lcs (a b : List String) : desc a b <:+ lcs a b := List.drop_suffix _ _
+
+theorem desc_suffix_left (a b : List String) : desc a b <:+ a :=
+  (desc_suffix_lcs a b).trans (lcs_suffix_left a b)
+
+theorem desc_suffix_right (a b : List String) : desc a b <:+ b :=
+  (desc_suffix_lcs a b).trans (lcs_suffix_right a b)
+
+theorem desc_length (a b : List String) :
+    (desc a b).length = min (lcs a b).length (min a.length b.length - 1) := by
+  simp only [desc, List.length_drop]
+  omega
+
+theorem descList_clean {a b : Path} (ha : Clean a) (hb : Clean b) : descList a b = desc a b := by
+  unfold descList desc
   rw [sharedDesc_clean ha hb]
   by_cases h : lcs a b = []
   · simp [h]
-  · simp [h, splitP_of_ne h]
+  · simp [h, splitP_of_ne h, lenNode_of_ne ha.1, lenNode_of_ne hb.1]
 
 theorem extP_of_ne {r : Path} (h : r ≠ []) (n : String) : extP r n = r ++ [n] := by
   unfold extP
@@ -355,57 +373,64 @@ theorem take_sub_len (sr T : List String) : (sr ++ T).take ((sr ++ T).length - T
 
 theorem getRelative_clean (mroOf : Path → List Path) {sub base value sr br : Path}
     (hs : Clean sub) (hb : Clean base) (hv : Clean value)
-    (hsr : sr ++ lcs sub base = sub) (hbr : br ++ lcs sub base = base) :
+    (hsr : sr ++ desc sub base = sub) (hbr : br ++ desc sub base = base) :
     getRelative mroOf sub base value =
       if lcp base value = [] then .none else
-        match relLoop mroOf sr br (lcs sub base) with
+        match relLoop mroOf sr br (desc sub base) with
         | none => .mustNotHappen
         | some roots => relFinish (lcp base value) value roots := by
-  have e1 : sub.take (sub.length - (lcs sub base).length) = sr := by
-    have := take_sub_len sr (lcs sub base); rw [hsr] at this; exact this
-  have e2 : base.take (base.length - (lcs sub base).length) = br := by
-    have := take_sub_len br (lcs sub base); rw [hbr] at this; exact this
+  have e1 : sub.take (sub.length - (desc sub base).length) = sr := by
+    have := take_sub_len sr (desc sub base); rw [hsr] at this; exact this
+  have e2 : base.take (base.length - (desc sub base).length) = br := by
+    have := take_sub_len br (desc sub base); rw [hbr] at this; exact this
   unfold getRelative
   rw [sharedAsc_clean hb hv, descList_clean hs hb, trimRight_clean hs, trimRight_clean hb, e1, e2]
   by_cases h : lcp base value = []
   · simp [h]
   · simp only [h, if_false]
-    cases relLoop mroOf sr br (lcs sub base) <;> rfl
+    cases relLoop mroOf sr br (desc sub base) <;> rfl
 
 /-! ### declarative specification -/
 
 /-- the two spaces sit at the same relative position `t` below `rs` and `rb`, and `rs`
 derives from `rb` (or is `rb`) -/
 def Related (mroOf : Path → List Path) (sub base rs rb : Path) (t : List String) : Prop :=
-  sub = rs ++ t ∧ base = rb ++ t ∧ rb ∈ mroOf rs
+  sub = rs ++ t ∧ base = rb ++ t ∧ rs ≠ [] ∧ rb ≠ [] ∧ rb ∈ mroOf rs
 
 /-- the outermost such pair (the longest stripped suffix) -/
 def Outermost (mroOf : Path → List Path) (sub base rs rb : Path) (t : List String) : Prop :=
   Related mroOf sub base rs rb t ∧
     ∀ rs' rb' t', Related mroOf sub base rs' rb' t' → t'.length ≤ t.length
 
-/-- neither dotted name is a suffix of the other (`A.B` deriving a top-level `B`) -/
-def NoSuffixClash (sub base : Path) : Prop := ¬ base <:+ sub ∧ ¬ sub <:+ base
-
-instance (sub base : Path) : Decidable (NoSuffixClash sub base) := by unfold NoSuffixClash; exact inferInstance
-
-theorem roots_ne {sub base sr br : Path} (hc : NoSuffixClash sub base)
-    (hsr : sr ++ lcs sub base = sub) (hbr : br ++ lcs sub base = base) : sr ≠ [] ∧ br ≠ [] := by
+theorem roots_ne {sub base sr br : Path} (hs : sub ≠ []) (hb : base ≠ [])
+    (hsr : sr ++ desc sub base = sub) (hbr : br ++ desc sub base = base) : sr ≠ [] ∧ br ≠ [] := by
+  have hl := desc_length sub base
+  have h1 := congrArg List.length hsr
+  have h2 := congrArg List.length hbr
+  have hs' : 0 < sub.length := List.length_pos_iff.mpr hs
+  have hb' : 0 < base.length := List.length_pos_iff.mpr hb
+  simp only [List.length_append] at h1 h2
   constructor
-  · intro e; subst e
-    simp only [List.nil_append] at hsr
-    exact hc.2 (by rw [← hsr]; exact lcs_suffix_right sub base)
-  · intro e; subst e
-    simp only [List.nil_append] at hbr
-    exact hc.1 (by rw [← hbr]; exact lcs_suffix_left sub base)
+  · intro e; subst e; simp at h1; omega
+  · intro e; subst e; simp at h2; omega
 
-/-- a related triple is a split of the longest common suffix -/
+/-- a related triple is a split of the shared trailing part -/
 theorem related_split {mroOf : Path → List Path} {sub base sr br rs rb : Path} {t : List String}
-    (hsr : sr ++ lcs sub base = sub) (hbr : br ++ lcs sub base = base)
+    (hsr : sr ++ desc sub base = sub) (hbr : br ++ desc sub base = base)
     (h : Related mroOf sub base rs rb t) :
-    ∃ pre, lcs sub base = pre ++ t ∧ rs = sr ++ pre ∧ rb = br ++ pre := by
-  obtain ⟨h1, h2, _⟩ := h
-  have ht : t <:+ lcs sub base := suffix_lcs t sub base ⟨rs, h1.symm⟩ ⟨rb, h2.symm⟩
+    ∃ pre, desc sub base = pre ++ t ∧ rs = sr ++ pre ∧ rb = br ++ pre := by
+  obtain ⟨h1, h2, hrs, hrb, _⟩ := h
+  have ht0 : t <:+ lcs sub base := suffix_lcs t sub base ⟨rs, h1.symm⟩ ⟨rb, h2.symm⟩
+  have ht : t <:+ desc sub base := by
+    apply List.suffix_of_suffix_length_le ht0 (desc_suffix_lcs sub base)
+    have hl := desc_length sub base
+    have l0 := ht0.length_le
+    have l1 := congrArg List.length h1
+    have l2 := congrArg List.length h2
+    have r1 : 0 < rs.length := List.length_pos_iff.mpr hrs
+    have r2 : 0 < rb.length := List.length_pos_iff.mpr hrb
+    simp only [List.length_append] at l1 l2
+    omega
   obtain ⟨pre, hpre⟩ := ht
   refine ⟨pre, hpre.symm, ?_, ?_⟩
   · have : rs ++ t = (sr ++ pre) ++ t := by rw [← h1, List.append_assoc, hpre, hsr]
@@ -414,23 +439,23 @@ theorem related_split {mroOf : Path → List Path} {sub base sr br rs rb : Path}
     exact List.append_cancel_right this
 
 theorem relLoop_of_outermost (mroOf : Path → List Path) {sub base sr br rs rb : Path} {t : List String}
-    (hc : NoSuffixClash sub base)
-    (hsr : sr ++ lcs sub base = sub) (hbr : br ++ lcs sub base = base)
+    (hs : sub ≠ []) (hb : base ≠ [])
+    (hsr : sr ++ desc sub base = sub) (hbr : br ++ desc sub base = base)
     (ho : Outermost mroOf sub base rs rb t) :
-    relLoop mroOf sr br (lcs sub base) = some (rs, rb) := by
-  obtain ⟨hsrne, hbrne⟩ := roots_ne hc hsr hbr
+    relLoop mroOf sr br (desc sub base) = some (rs, rb) := by
+  obtain ⟨hsrne, hbrne⟩ := roots_ne hs hb hsr hbr
   obtain ⟨pre, hT, hrs, hrb⟩ := related_split hsr hbr ho.1
-  cases hl : relLoop mroOf sr br (lcs sub base) with
+  cases hl : relLoop mroOf sr br (desc sub base) with
   | none =>
     have := relLoop_none mroOf _ _ _ hsrne hbrne hl pre t hT
     rw [← hrs, ← hrb] at this
-    exact absurd ho.1.2.2 this
+    exact absurd ho.1.2.2.2.2 this
   | some roots =>
     obtain ⟨rs1, rb1⟩ := roots
     obtain ⟨pre1, post1, hT1, hrs1, hrb1, hin1, hmin1⟩ := relLoop_sound mroOf _ _ _ _ _ hsrne hbrne hl
     -- (rs1, rb1, post1) is related, hence post1 is not longer than t
     have hrel1 : Related mroOf sub base rs1 rb1 post1 := by
-      refine ⟨?_, ?_, hin1⟩
+      refine ⟨?_, ?_, by rw [hrs1]; simp [hsrne], by rw [hrb1]; simp [hbrne], hin1⟩
       · rw [hrs1, List.append_assoc, ← hT1, hsr]
       · rw [hrb1, List.append_assoc, ← hT1, hbr]
     have hle := ho.2 _ _ _ hrel1
@@ -446,16 +471,16 @@ theorem relLoop_of_outermost (mroOf : Path → List Path) {sub base sr br rs rb 
       rw [hrs1, hrb1, ← hrs, ← hrb]
     · have := hmin1 pre suf hsuf.symm hs
       rw [← hrs, ← hrb] at this
-      exact absurd ho.1.2.2 this
+      exact absurd ho.1.2.2.2.2 this
 
 theorem outermost_of_relLoop (mroOf : Path → List Path) {sub base sr br rs rb : Path}
-    (hc : NoSuffixClash sub base)
-    (hsr : sr ++ lcs sub base = sub) (hbr : br ++ lcs sub base = base)
-    (hl : relLoop mroOf sr br (lcs sub base) = some (rs, rb)) :
+    (hs : sub ≠ []) (hb : base ≠ [])
+    (hsr : sr ++ desc sub base = sub) (hbr : br ++ desc sub base = base)
+    (hl : relLoop mroOf sr br (desc sub base) = some (rs, rb)) :
     ∃ t, Outermost mroOf sub base rs rb t := by
-  obtain ⟨hsrne, hbrne⟩ := roots_ne hc hsr hbr
+  obtain ⟨hsrne, hbrne⟩ := roots_ne hs hb hsr hbr
   obtain ⟨pre1, post1, hT1, hrs1, hrb1, hin1, hmin1⟩ := relLoop_sound mroOf _ _ _ _ _ hsrne hbrne hl
-  refine ⟨post1, ⟨?_, ?_, hin1⟩, ?_⟩
+  refine ⟨post1, ⟨?_, ?_, by rw [hrs1]; simp [hsrne], by rw [hrb1]; simp [hbrne], hin1⟩, ?_⟩
   · rw [hrs1, List.append_assoc, ← hT1, hsr]
   · rw [hrb1, List.append_assoc, ← hT1, hbr]
   · intro rs' rb' t' hrel
@@ -473,7 +498,7 @@ theorem outermost_of_relLoop (mroOf : Path → List Path) {sub base sr br rs rb 
       subst hsuf; omega
     have := hmin1 pre suf hsuf.symm hs
     rw [← hrs, ← hrb] at this
-    exact this hrel.2.2
+    exact this hrel.2.2.2.2
 
 theorem lcp_ne_nil_of_head {a b : Path} (ha : a ≠ []) (h : a.head? = b.head?) : lcp a b ≠ [] := by
   cases a with
@@ -497,62 +522,50 @@ theorem lcp_eq_nil_of_head {a b : Path} (h : a.head? ≠ b.head?) : lcp a b = []
       simp [lcp, this]
 
 /-- the outermost related pair exists as soon as any related pair does -/
-theorem exists_outermost (mroOf : Path → List Path) {sub base : Path} (hc : NoSuffixClash sub base)
+theorem exists_outermost (mroOf : Path → List Path) {sub base : Path} (hs : sub ≠ []) (hb : base ≠ [])
     (h : ∃ rs rb t, Related mroOf sub base rs rb t) : ∃ rs rb t, Outermost mroOf sub base rs rb t := by
-  obtain ⟨sr, hsr⟩ := lcs_suffix_left sub base
-  obtain ⟨br, hbr⟩ := lcs_suffix_right sub base
-  obtain ⟨hsrne, hbrne⟩ := roots_ne hc hsr hbr
+  obtain ⟨sr, hsr⟩ := desc_suffix_left sub base
+  obtain ⟨br, hbr⟩ := desc_suffix_right sub base
+  obtain ⟨hsrne, hbrne⟩ := roots_ne hs hb hsr hbr
   obtain ⟨rs, rb, t, hrel⟩ := h
   obtain ⟨pre, hT, hrs, hrb⟩ := related_split hsr hbr hrel
-  cases hl : relLoop mroOf sr br (lcs sub base) with
+  cases hl : relLoop mroOf sr br (desc sub base) with
   | none =>
     have := relLoop_none mroOf _ _ _ hsrne hbrne hl pre t hT
     rw [← hrs, ← hrb] at this
-    exact absurd hrel.2.2 this
+    exact absurd hrel.2.2.2.2 this
   | some roots =>
     obtain ⟨rs1, rb1⟩ := roots
-    obtain ⟨t1, h1⟩ := outermost_of_relLoop mroOf hc hsr hbr hl
+    obtain ⟨t1, h1⟩ := outermost_of_relLoop mroOf hs hb hsr hbr hl
     exact ⟨rs1, rb1, t1, h1⟩
 
-/-! ### `wrap_impl`: the string-prefix test on paths -/
+/-! ### `wrap_impl`: `impl.startswith(root + ".")` on paths -/
 
-/-- the last component of `root` is a proper string prefix of the corresponding component of
-`impl`, everything before agrees (`Base` / `Base2.foo`) -/
-def NameClash (root impl : Path) : Prop :=
-  ∃ pre r i rest, root = pre ++ [r] ∧ impl = pre ++ i :: rest ∧ r ≠ i ∧ strPrefix r i = true
-
-theorem wrapLookup_inside : ∀ (root rel : Path), root ≠ [] → wrapLookup root (root ++ rel) = some rel
-  | [], _, h => absurd rfl h
-  | [r], rel, _ => by simp [wrapLookup]
-  | r :: r2 :: rs, rel, _ => by
+theorem wrapLookup_inside : ∀ (root rel : Path), rel ≠ [] → wrapLookup root (root ++ rel) = some rel
+  | [], rel, h => by simp [wrapLookup, h]
+  | r :: rs, rel, h => by
     simp only [List.cons_append, wrapLookup, if_true]
-    exact wrapLookup_inside (r2 :: rs) rel (by simp)
+    exact wrapLookup_inside rs rel h
 
 theorem wrapLookup_some : ∀ (root impl rel : Path), wrapLookup root impl = some rel →
-    root <+: impl ∨ NameClash root impl
-  | [], _, _, h => by simp [wrapLookup] at h
-  | _ :: _, [], _, h => by simp [wrapLookup] at h
-  | [r], i :: rest, rel, h => by
+    impl = root ++ rel ∧ rel ≠ []
+  | [], rest, rel, h => by
     simp only [wrapLookup] at h
     split at h
-    · rename_i e; subst e; left; exact ⟨rest, rfl⟩
-    · rename_i hne
-      split at h
-      · rename_i hp; right; exact ⟨[], r, i, rest, rfl, rfl, hne, hp⟩
-      · cases h
-  | r :: r2 :: rs, i :: rest, rel, h => by
+    · cases h
+    · rename_i hne; cases h; exact ⟨rfl, hne⟩
+  | _ :: _, [], _, h => by simp [wrapLookup] at h
+  | r :: rs, i :: rest, rel, h => by
     simp only [wrapLookup] at h
     split at h
     · rename_i e; subst e
-      rcases wrapLookup_some (r2 :: rs) rest rel h with hp | ⟨pre, r', i', rest', h1, h2, h3, h4⟩
-      · left; exact (List.prefix_cons_inj r).mpr hp
-      · right; exact ⟨r :: pre, r', i', rest', by simp [h1], by simp [h2], h3, h4⟩
+      obtain ⟨h1, h2⟩ := wrapLookup_some rs rest rel h
+      exact ⟨by simp [h1], h2⟩
     · cases h
 
-theorem wrapLookup_outside {root impl : Path} (h1 : ¬ root <+: impl) (h2 : ¬ NameClash root impl) :
-    wrapLookup root impl = none := by
+theorem wrapLookup_outside {root impl : Path} (h1 : ¬ root <+: impl) : wrapLookup root impl = none := by
   cases h : wrapLookup root impl with
   | none => rfl
-  | some rel => rcases wrapLookup_some root impl rel h with h | h <;> contradiction
+  | some rel => exact absurd ⟨rel, (wrapLookup_some root impl rel h).1.symm⟩ h1
 
 end MxModel.Relative
